@@ -51,6 +51,47 @@ def parsePairs (s : String) : List (String × String) :=
     | k :: v :: rest => some (k, ":".intercalate (v :: rest))
     | _ => none
 
+/-- a number of a `db` line: hexadecimal `0x..` or decimal, one byte -/
+def dbNum (v : String) : Option Nat :=
+  let n := if v.startsWith "0x" then
+      (if v.length ≤ 2 then none else
+       (v.drop 2).toString.toList.foldl (fun acc ch => acc.bind fun a =>
+        if ch.isDigit then some (a * 16 + (ch.toNat - '0'.toNat))
+        else if 'a' ≤ ch ∧ ch ≤ 'f' then some (a * 16 + 10 + (ch.toNat - 'a'.toNat)) else none) (some 0))
+    else canonicalNat? v
+  n.bind fun k => if k < 256 then some k else none
+
+structure DbState where
+  inStr : Bool := false
+  cur : List Char := []        -- the element being read, latest character first
+  numeric : Bool := true
+  acc : List Nat := []
+  bad : Bool := false
+
+def dbElem (cur : List Char) (numeric : Bool) : Option (List Nat) :=
+  let cs := cur.reverse
+  if numeric then (dbNum (String.ofList cs)).map fun k => [k]
+  else if cs.all (fun c => c.toNat < 128) then some (cs.map Char.toNat) else none
+
+/-- the bytes a `db` value denotes (what `dbDataConverter` + `object2Bytes` are meant to compute):
+    elements separated by commas; an element is a number (one byte) or a text between double
+    quotes, one byte per character, blanks and commas included; blanks outside quotes mean
+    nothing.  There is no escape character.  `none` = outside what the oracle interprets
+    (numbers wider than a byte, an unterminated or empty text, non-ASCII). -/
+def dbBytes (value : String) : Option (List Nat) :=
+  let st := value.trimAscii.toString.toList.foldl (fun (st : DbState) ch =>
+    if st.bad then st
+    else if ch == '"' then { st with inStr := !st.inStr, numeric := st.numeric && st.inStr }
+    else if ch == ',' && !st.inStr then
+      match dbElem st.cur st.numeric with
+      | some bs => if st.cur.isEmpty then { st with bad := true } else { st with cur := [], numeric := true, acc := st.acc ++ bs }
+      | none => { st with bad := true }
+    else if st.inStr then { st with cur := ch :: st.cur }
+    else if ch == ' ' then st
+    else { st with cur := ch :: st.cur }) {}
+  if st.bad || st.inStr || st.cur.isEmpty then none
+  else (dbElem st.cur st.numeric).map fun bs => st.acc ++ bs
+
 structure PState where
   src : Source := {}
   cur : Option Section := none
@@ -115,22 +156,17 @@ def pstep (st : PState) (raw : String) : PState :=
   | op :: rest =>
     match st.curData with
     | some d =>
-      -- `name db v1, v2` / `name N:db v1, v2` (hexadecimal 0x.. or decimal byte values)
-      match rest with
-      | dop :: vs =>
+      -- `name db v1, "text", v2` / `name N:db …`: the operator is the first blank-separated word after
+      -- the name, the value is everything after the ONE blank that follows it, blanks included
+      let rest0 := (line.drop op.length).trimAscii.toString
+      match rest0.splitOn " " with
+      | dop :: v :: vs =>
         let rep : Option Nat := if dop = "db" then some 1
           else if dop.endsWith ":db" then canonicalNat? (dop.dropEnd 3).toString else none
-        let vals := ((" ".intercalate vs).splitOn ",").map fun v => v.trimAscii.toString
-        let num (v : String) : Option Nat :=
-          if v.startsWith "0x" then
-            ((v.drop 2).toString.toList.foldl (fun acc ch => acc.bind fun a =>
-              if ch.isDigit then some (a * 16 + (ch.toNat - '0'.toNat))
-              else if 'a' ≤ ch ∧ ch ≤ 'f' then some (a * 16 + 10 + (ch.toNat - 'a'.toNat)) else none) (some 0))
-          else canonicalNat? v
-        match rep, vals.mapM num with
+        match rep, dbBytes (" ".intercalate (v :: vs)) with
         | some n, some xs => { st with curData := some { d with vars := d.vars ++ [{ name := op, rep := n, vals := xs }] } }
         | _, _ => { st with bad := true }
-      | [] => { st with bad := true }
+      | _ => { st with bad := true }
     | none =>
     match st.cur with
     | none => { st with bad := true }
@@ -155,6 +191,27 @@ def pstep (st : PState) (raw : String) : PState :=
 def parseSource (lines : List String) : Option Source :=
   let st := lines.foldl pstep {}
   if st.bad || st.cur.isSome || st.curData.isSome then none else some st.src
+
+/-- the `cpdef` names and the `ioatt` lines of ANY basm text (sections, data, shared objects are
+    skipped): what the wiring of the emitted machine is compared with.  `none` when the text creates
+    processors or bonds by other means (fragment instances and their links) or an `ioatt` line is
+    not of the plain `cp:…, type:…, index:…` form. -/
+def scanWiring (lines : List String) : Option Source :=
+  lines.foldl (fun acc raw => acc.bind fun (src : Source) =>
+    match ((stripComment raw).splitOn " ").filter (· ≠ "") with
+    | "%meta" :: cmd :: obj :: rest =>
+      let ps := parsePairs ("".intercalate rest)
+      let get (k : String) := (ps.find? (·.1 == k)).map (·.2)
+      if cmd = "cpdef" then some { src with cps := src.cps ++ [{ name := obj, romcode := "" }] }
+      else if cmd = "ioatt" then
+        match get "cp", get "type", (get "index").bind canonicalNat? with
+        | some cp, some ty, some idx =>
+          if ps.length ≠ 3 || (ty ≠ "input" && ty ≠ "output") then none
+          else some { src with ioatts := src.ioatts ++ [{ name := obj, cp := cp, isInput := ty == "input", index := idx }] }
+        | _, _, _ => none
+      else if cmd = "fidef" || cmd = "filinkdef" || cmd = "filinkatt" then none
+      else some src
+    | _ => some src) (some {})
 
 /-! ### machine text -/
 
